@@ -108,3 +108,149 @@ func VerifC13AddDelegate() {
 	rt.Assert(rt.And(after.DelegateAmount.GTE(threshold), after.DelegateAmount.LTE(maxStake)), "stake within the configured bounds")
 	rt.Assert(after.SlashTimes == 0, "penalty counter cleared once paid")
 }
+
+// VerifC13Unbond: MsgUnbondedOracle for an oracle that governance removed from the list. It pays
+// out only after the unbonding period has passed (no unbonding delegation in progress), pays the
+// delegate address' balance minus the penalty, burns the penalty (never more than the stake),
+// deletes the record, both lookup indexes and the oracle's event nonce, and cannot succeed twice;
+// and once the stake has matured the oracle CAN withdraw.
+func VerifC13Unbond() {
+	e := verifNewEnv(100)
+	bank, _ := e.attachBankAndStaking()
+	view := &models.StakingView{}
+	e.k.stakingKeeper = view
+	p := e.setParams(verifParamSets[0], 20000)
+	stake := verifIntBelow("oracle0.stake", 100)
+	rt.Assume(stake.GTE(p.DelegateThreshold.Amount))
+	online := rt.Bool("oracle0.online")
+	slashTimes := int64(rt.Choose("oracle0.slashTimes", 3))
+	o0 := e.verifAddOracle(0, online, 5, stake, slashTimes)
+	e.verifAddOracle(1, true, 5, verifStake(0), 0)
+	id := verifOracleIdent(0)
+	inList := rt.Bool("oracle0.inGovernanceList")
+	list := []string{verifOracleIdent(1).oracle.String()}
+	if inList {
+		list = append(list, id.oracle.String())
+	}
+	e.k.SetProposalOracle(e.ctx, &types.ProposalOracle{Oracles: list})
+	e.k.SetLastEventNonceByOracle(e.ctx, id.oracle, 9)
+	delegateAddr := o0.GetDelegateAddress(verifModule)
+	unbondingInProgress := rt.Bool("unbondingInProgress")
+	if unbondingInProgress {
+		view.Unbonding = append(view.Unbonding, delegateAddr)
+	}
+	released := verifIntBelow("delegateAddress.balance", 101) // what the staking module has released so far
+	bank.SetBalance(delegateAddr, fxtypes.DefaultDenom, released)
+	wallet := verifIntBelow("oracle0.wallet", 100)
+	bank.SetBalance(id.oracle, fxtypes.DefaultDenom, wallet)
+	supplyBefore := bank.Supply(fxtypes.DefaultDenom)
+	penalty := o0.GetSlashAmount(p.SlashFraction)
+	rt.Cover("state-built")
+
+	_, err := MsgServer{Keeper: e.k}.UnbondedOracle(e.ctx, &types.MsgUnbondedOracle{ChainName: verifModule, OracleAddress: id.oracle.String()})
+	if err != nil {
+		rt.Cover("refused")
+		rt.Known("C13-unbond-requires-unbonding-in-progress", rt.And(!unbondingInProgress, !inList, !online, released.GTE(penalty)))
+		rt.Assert(rt.Or(unbondingInProgress, inList, online, released.LT(penalty)), "once removed by governance, offline and fully unbonded, the oracle can withdraw its stake")
+		return
+	}
+	rt.Cover("unbonded")
+	rt.Assert(!inList && !online, "only an oracle removed by governance and offline can unbond")
+	rt.Known("C13-unbond-requires-unbonding-in-progress", unbondingInProgress)
+	rt.Assert(!unbondingInProgress, "the stake is paid out only after the unbonding period has passed")
+	burned := supplyBefore.Sub(bank.Supply(fxtypes.DefaultDenom))
+	rt.Assert(rt.And(burned.Equal(penalty), penalty.LTE(stake), penalty.GTE(sdkmath.ZeroInt())), "the penalty is burned, once, and never exceeds the stake")
+	rt.Assert(bank.Balance(id.oracle, fxtypes.DefaultDenom).Equal(wallet.Add(released).Sub(penalty)), "the oracle receives the released stake minus the penalty")
+	rt.Assert(bank.Balance(delegateAddr, fxtypes.DefaultDenom).IsZero(), "nothing stays behind on the delegate address")
+	_, found := e.k.GetOracle(e.ctx, id.oracle)
+	_, byBridger := e.k.GetOracleAddrByBridgerAddr(e.ctx, id.bridger)
+	_, byExternal := e.k.GetOracleAddrByExternalAddr(e.ctx, id.external)
+	rt.Assert(!found && !byBridger && !byExternal, "record and both lookup indexes are deleted")
+	_, err = MsgServer{Keeper: e.k}.UnbondedOracle(e.ctx, &types.MsgUnbondedOracle{ChainName: verifModule, OracleAddress: id.oracle.String()})
+	rt.Assert(err != nil, "the stake cannot be withdrawn twice")
+}
+
+// VerifC13BondEdit: MsgBondedOracle and MsgEditBridger keep the registry one-to-one: after the
+// step every oracle, bridger and external address belongs to at most one record and the indexes
+// agree with the records; bonding needs governance approval and a stake within bounds, records
+// exactly the stake that is moved and delegated.
+func VerifC13BondEdit() {
+	e := verifNewEnv(100)
+	bank, st := e.attachBankAndStaking()
+	p := e.setParams(verifParamSets[0], 20000)
+	e.verifAddOracle(1, true, 5, verifStake(0), 0)
+	newID := verifOracleIdent(0)
+	other := verifOracleIdent(1)
+	inList := rt.Bool("approvedByGovernance")
+	list := []string{other.oracle.String()}
+	if inList {
+		list = append(list, newID.oracle.String())
+	}
+	e.k.SetProposalOracle(e.ctx, &types.ProposalOracle{Oracles: list})
+	e.k.SetLastTotalPower(e.ctx)
+	wallet := verifIntBelow("wallet", 110)
+	bank.SetBalance(newID.oracle, fxtypes.DefaultDenom, wallet)
+	amount := verifIntBelow("stake", 105)
+	// the new oracle may try to reuse the other oracle's bridger or external address
+	bridger := newID.bridger
+	if rt.Bool("reuseBridger") {
+		bridger = other.bridger
+	}
+	external := newID.external
+	if rt.Bool("reuseExternal") {
+		external = other.external
+	}
+	rt.Cover("state-built")
+	_, err := MsgServer{Keeper: e.k}.BondedOracle(e.ctx, &types.MsgBondedOracle{ChainName: verifModule, OracleAddress: newID.oracle.String(), BridgerAddress: bridger.String(),
+		ExternalAddress: external, ValidatorAddress: sdk.ValAddress(make([]byte, 20)).String(), DelegateAmount: types.NewDelegateAmount(amount)})
+	if err != nil {
+		rt.Cover("bond-refused")
+	} else {
+		rt.Cover("bonded")
+		rt.Assert(inList, "only an oracle approved by governance can bond")
+		rt.Assert(string(bridger) == string(newID.bridger) && external == newID.external, "a bridger or external address already bound to an oracle cannot be bound again")
+		rt.Assert(rt.And(amount.GTE(p.DelegateThreshold.Amount), amount.LTE(p.DelegateThreshold.Amount.MulRaw(p.DelegateMultiple))), "stake within the configured bounds")
+		rec, found := e.k.GetOracle(e.ctx, newID.oracle)
+		rt.Assert(found && rec.DelegateAmount.Equal(amount) && rec.Online, "recorded stake is the bonded amount")
+		rt.Assert(bank.Balance(newID.oracle, fxtypes.DefaultDenom).Equal(wallet.Sub(amount)), "the oracle pays exactly the stake")
+		delegated := sdkmath.ZeroInt()
+		for _, r := range st.Recs {
+			if r.Kind == "delegate" {
+				delegated = delegated.Add(r.Amount)
+			}
+		}
+		rt.Assert(delegated.Equal(amount), "exactly the stake is delegated on the oracle's behalf")
+		rt.Assert(e.k.GetLastTotalPower(e.ctx).GTE(e.onlinePower()), "recorded total power >= power of the online oracles")
+	}
+	// registry consistency (R1) whatever happened
+	for i := 0; i < 2; i++ {
+		id := verifOracleIdent(i)
+		rec, found := e.k.GetOracle(e.ctx, id.oracle)
+		if !found {
+			continue
+		}
+		a, ok := e.k.GetOracleAddrByBridgerAddr(e.ctx, rec.GetBridger())
+		rt.Assert(ok && string(a) == string(id.oracle), "bridger index points back to the record")
+		a, ok = e.k.GetOracleAddrByExternalAddr(e.ctx, rec.ExternalAddress)
+		rt.Assert(ok && string(a) == string(id.oracle), "external-address index points back to the record")
+	}
+	// edit bridger of oracle 1 to a fresh or to an occupied bridger
+	target := verifOracleIdent(2).bridger
+	occupied := rt.Bool("editToOccupiedBridger")
+	if occupied {
+		if _, ok := e.k.GetOracleAddrByBridgerAddr(e.ctx, newID.bridger); !ok {
+			occupied = false
+		} else {
+			target = newID.bridger
+		}
+	}
+	_, err = MsgServer{Keeper: e.k}.EditBridger(e.ctx, &types.MsgEditBridger{ChainName: verifModule, OracleAddress: other.oracle.String(), BridgerAddress: target.String()})
+	if err == nil {
+		rt.Cover("bridger-edited")
+		rt.Assert(!occupied, "a bridger address bound to another oracle cannot be taken over")
+		a, ok := e.k.GetOracleAddrByBridgerAddr(e.ctx, target)
+		rt.Assert(ok && string(a) == string(other.oracle), "new bridger maps to the oracle")
+		_, old := e.k.GetOracleAddrByBridgerAddr(e.ctx, other.bridger)
+		rt.Assert(!old, "old bridger no longer maps to anything")
+	}
+}
